@@ -181,7 +181,7 @@ def _plan(prop, T):
                 miri("seg-pairs", 1, 8, T, mon="query", variant=1, stride=528),
             ],
             rule="evaluation = one iter_by_range (fully or partially consumed) compared as a multiset with {v : exp(v) >= t and buckets(v) meet buckets(query)}; distinct non-trivial = distinct (insert range, query range) pairs on the 32-point domain + distinct (stored bucket ranges, query buckets, exp==t flags) with a non-empty expected answer",
-            require={"op_query_full": 300000, "op_query_partial": 2000, "query_with_value_expiring_exactly_at_t": 5000, "query_over_expired_value": 5000, "query_with_2plus_expected": 5000},
+            require={"op_query_full": 300000, "op_query_partial": 2000, "query_with_value_expiring_exactly_at_t": 5000, "query_over_expired_value": 5000, "query_with_2plus_expected": 5000, "histories_on_domains_with_more_points_than_i64_max": 1000},
             exhaustive_claim=True,
             exhaustive_scope="all 528 x 528 (insert range, query range) pairs on the domain [0,31], in two variants (no expiry; expirations t-1 / t / later with repeated and partial queries)",
             assumptions=["independent bucket function (x-lo) >> s with s least such that 32*2^s >= len", "in-domain ranges, non-decreasing query times between clears"],
@@ -343,11 +343,13 @@ def _plan(prop, T):
                 dict(flavour="asan", suite="seg-domains", args=dict(grid_len=40, grid_lo=20), shards=8),
                 dict(flavour="rel", suite="seg-domains", args=dict(grid_len=40, grid_lo=20), shards=4),
                 miri("seg-domains", 1, 8, T, grid_len=24, grid_lo=2, parts="g"),
+                miri("seg-domains", 1, 8, T, parts="x", edge_step=8),
             ],
             rule="evaluation = one domain (construction must succeed iff it has > 16 points) or one coordinate whose stored place (hook) must be 31 + ((x-lo) >> s), s least with 32*2^s >= len, with the number of place lists == 32 + bucket(hi), cross-checked by point queries; distinct non-trivial = distinct (coordinate type, lo, len)",
-            require={"domains_built": 5000, "domains_refused_as_required": 1000, "coordinates_checked": 200000, "point_queries_checked": 50000},
+            require={"domains_built": 5000, "domains_refused_as_required": 1000, "coordinates_checked": 200000, "point_queries_checked": 50000,
+                     "domains_with_more_points_than_i64_max": 40},
             exhaustive_claim=True,
-            exhaustive_scope="the listed grid: all i32 domains with len 1..=80 x lo -70..=70, i8/u8 corners, 2^k-1/2^k/2^k+1 for k=4..32 at 5 origins in i16/u16/i32/u32, i64 domains up to 2^62+1",
+            exhaustive_scope="the listed grid: all i32 domains with len 1..=80 x lo -70..=70, i8/u8 corners, 2^k-1/2^k/2^k+1 for k=4..32 at 5 origins in i16/u16/i32/u32, i64 domains up to 2^62+1, 22 i64 domains of 2^63-1 .. 2^64 points",
             assumptions=["independent bucket function computed in 128-bit arithmetic"],
         )
     if prop == "C15":
